@@ -216,7 +216,8 @@ def add(*a, **kw):
 
 I, R, B, S = "Int", "Rat", "Bool", "Str"
 # string-typed kernel arguments travel through the line protocol as indices into this table
-STR_TABLE = ["auto", "full", "tsqr", "randomized", "arpack", "covariance_eigh", "bogus"]
+STR_TABLE = ["auto", "full", "tsqr", "randomized", "arpack", "covariance_eigh", "bogus",
+             ".pq", ".parquet", ".csv", ".txt", ".PQ", ".Parquet", "", ".pq.csv", "pq", ".parquet "]
 
 # ==========================================================================================
 # C02  crop window / slice arithmetic          acryo/_utils.py
